@@ -400,12 +400,14 @@ struct HtmlObs {
     pages: BTreeMap<String, Vec<Option<u64>>>,
     /// index location (dir path below the output dir) ↦ (kind, rows)
     indexes: BTreeMap<String, (String, Vec<(String, String)>)>,
+    /// page path ↦ the text of every row (html-unescaped)
+    texts: BTreeMap<String, Vec<String>>,
 }
 
 fn observe_html(outd: &Path) -> Result<HtmlObs, String> {
     let mut files = vec![];
     list_files(outd, "", &mut files);
-    let mut obs = HtmlObs { pages: BTreeMap::new(), indexes: BTreeMap::new() };
+    let mut obs = HtmlObs { pages: BTreeMap::new(), indexes: BTreeMap::new(), texts: BTreeMap::new() };
     for f in files {
         if !f.ends_with(".html") {
             continue;
@@ -421,6 +423,7 @@ fn observe_html(outd: &Path) -> Result<HtmlObs, String> {
                     return Err(format!("rows of {} are not numbered 1,2,…", f));
                 }
             }
+            obs.texts.insert(f.clone(), rows.iter().map(|r| r.2.clone()).collect());
             obs.pages.insert(f, rows.into_iter().map(|r| r.1).collect());
         }
     }
@@ -658,10 +661,52 @@ pub fn run(rep: &mut Report) {
 
 const TEXTS: [&str; 6] = ["int a = 1;", "  if (x < y && z > \"q\") {", "}", "", "// é ü 語 & <b>", "\treturn 'c' / 2;"];
 
+/// source bytes with at least `min_lines` lines as `from_utf8_lossy(..).lines()` counts them. About
+/// half of the sources are plain (valid UTF-8, LF); the others mix what real sources contain: CR LF,
+/// a lone CR inside a line, a BOM, Latin-1 / invalid bytes (0xE9, 0xFF, a lone 0xC3) in a line, NUL,
+/// a very long line, no final newline, an empty line at the end
+fn gen_source(rng: &mut Rng, min_lines: usize, k: usize) -> Vec<u8> {
+    let plain = rng.chance(1, 2);
+    let n = min_lines + rng.below(3) as usize;
+    let crlf = !plain && rng.chance(1, 3);
+    let mut out: Vec<u8> = vec![];
+    if !plain && rng.chance(1, 4) {
+        out.extend_from_slice(&[0xEF, 0xBB, 0xBF]);
+    }
+    for i in 0..n {
+        let mut line: Vec<u8> = TEXTS[(k * 7 + i * 5 + i / 3) % TEXTS.len()].as_bytes().to_vec();
+        if !plain {
+            match rng.below(12) {
+                0 => line.extend_from_slice(b"caf\xe9 // latin-1"),
+                1 => line.insert(0, 0xFF),
+                2 => line.push(0xC3),
+                3 => line.extend_from_slice(&[b'a', 13, b'b']),
+                4 => line.extend_from_slice(&[0, b'x', 0]),
+                5 => line.extend(std::iter::repeat(b'y').take(3000)),
+                6 => line.extend_from_slice(&[0xE2, 0x82]),
+                _ => {}
+            }
+        }
+        out.extend_from_slice(&line);
+        let last = i + 1 == n;
+        if last && !plain && !line.is_empty() && rng.chance(1, 3) {
+            break; // no final newline
+        }
+        if crlf || (!plain && rng.chance(1, 6)) {
+            out.push(13);
+        }
+        out.push(10);
+    }
+    if !plain && n > 0 && out.last() == Some(&10) && rng.chance(1, 4) {
+        out.push(10); // an empty line at the end
+    }
+    out
+}
+
 fn html_case(rep: &mut Report, rng: &mut Rng, rs: &RS, reqs: &mut Vec<String>, impl_ans: &mut Vec<String>, cases: &mut Vec<Value>) {
     let root = rep.workdir.join("docs_html_src");
     let mut set: RS = vec![];
-    let mut nsrc: Vec<Option<usize>> = vec![];
+    let mut srcs: Vec<Option<Vec<u8>>> = vec![];
     let mut seen = BTreeSet::new();
     for (k, (_, rel, c)) in rs.iter().enumerate() {
         if !seen.insert(rel.clone()) {
@@ -672,34 +717,39 @@ fn html_case(rep: &mut Report, rng: &mut Rng, rs: &RS, reqs: &mut Vec<String>, i
         // the source of an absolute rel path lives below the root too (it gets no page anyway)
         let abs = root.join(format!("f{}", k)).join(rel.strip_prefix("/").unwrap_or(rel));
         let readable = !rng.chance(1, 8);
-        nsrc.push(if readable { Some(c.lines.keys().last().cloned().unwrap_or(0) as usize + rng.below(3) as usize) } else { None });
+        srcs.push(if readable { Some(gen_source(rng, c.lines.keys().last().cloned().unwrap_or(0) as usize, k)) } else { None });
         set.push((abs, rel.clone(), c));
     }
-    html_run(rep, &set, &nsrc, Some((reqs, impl_ans, cases)));
+    html_run(rep, &set, &srcs, Some((reqs, impl_ans, cases)));
 }
 
-/// write the sources (`nsrc[k]` lines, None = no source file), run the real `output_html`, decode the
-/// output directory, evaluate the oracles; tie to the model now (replay) or later (stream)
-fn html_run(rep: &mut Report, set: &RS, nsrc: &[Option<usize>], sink: Option<(&mut Vec<String>, &mut Vec<String>, &mut Vec<Value>)>) {
+/// the sources of an older case file: `n` lines of plain text
+fn synth_source(n: usize, k: usize) -> Vec<u8> {
+    let lines: Vec<&str> = (0..n).map(|i| TEXTS[(k * 7 + i * 5 + i / 3) % TEXTS.len()]).collect();
+    (lines.join("\n") + if n > 0 { "\n" } else { "" }).into_bytes()
+}
+
+/// write the sources (None = no source file), run the real `output_html`, decode the output
+/// directory, evaluate the oracles; tie to the model now (replay) or later (stream)
+fn html_run(rep: &mut Report, set: &RS, srcs: &[Option<Vec<u8>>], mut sink: Option<(&mut Vec<String>, &mut Vec<String>, &mut Vec<Value>)>) {
     let root = rep.workdir.join("docs_html_src");
     let outd = rep.workdir.join("docs_html_out");
     let _ = std::fs::remove_dir_all(&root);
     let _ = std::fs::remove_dir_all(&outd);
     std::fs::create_dir_all(&root).unwrap();
-    for (k, ((abs, _, _), n)) in set.iter().zip(nsrc.iter()).enumerate() {
-        if let Some(n) = n {
+    for ((abs, _, _), b) in set.iter().zip(srcs.iter()) {
+        if let Some(b) = b {
             std::fs::create_dir_all(abs.parent().unwrap()).unwrap();
-            let lines: Vec<&str> = (0..*n).map(|i| TEXTS[(k * 7 + i * 5 + i / 3) % TEXTS.len()]).collect();
-            std::fs::write(abs, lines.join("\n") + if *n > 0 { "\n" } else { "" }).unwrap();
+            std::fs::write(abs, b).unwrap();
         }
     }
     let set = set.clone();
-    let nsrc = nsrc.to_vec();
+    let srcs = srcs.to_vec();
     let r = guarded(|| output_html(&set, Some(&outd), 1, true, None, 2, &None, true, grcov::html::HtmlResources::Cdn));
-    let detail = json!({"nsrc": nsrc});
+    let detail = json!({"srcs": srcs.iter().map(|b| b.as_ref().map(|b| hex(b))).collect::<Vec<_>>()});
     let req = format!(
         "c03.docs.html {}",
-        set.iter().zip(nsrc.iter()).map(|((a, r, c), n)| format!("R{}={}={}={}", hex(a.to_str().unwrap().as_bytes()), hex(r.to_str().unwrap().as_bytes()), show_cov(c), n.map(|n| n.to_string()).unwrap_or("x".into()))).collect::<Vec<_>>().join(" ")
+        set.iter().zip(srcs.iter()).map(|((a, r, c), b)| format!("R{}={}={}={}", hex(a.to_str().unwrap().as_bytes()), hex(r.to_str().unwrap().as_bytes()), show_cov(c), b.as_ref().map(|b| format!("h{}", hex(b))).unwrap_or("x".into()))).collect::<Vec<_>>().join(" ")
     )
     .trim_end()
     .to_string();
@@ -718,14 +768,54 @@ fn html_run(rep: &mut Report, set: &RS, nsrc: &[Option<usize>], sink: Option<(&m
                 // oracle: page iff relative and readable, at the place a reader expects, rows = counts
                 let mut expected_pages = BTreeSet::new();
                 let mut root_files = false;
-                for ((_, rel, c), n) in set.iter().zip(nsrc.iter()) {
+                for ((_, rel, c), b) in set.iter().zip(srcs.iter()) {
                     let rels = rel.to_str().unwrap();
                     let pp = page_path(rels);
-                    let should = rel.is_relative() && n.is_some();
+                    let should = rel.is_relative() && b.is_some();
                     if should {
                         expected_pages.insert(pp.clone());
                         rep.count("docs.html.page");
-                        let want: Vec<Option<u64>> = (1..=n.unwrap() as u32).map(|l| c.lines.get(&l).cloned()).collect();
+                        // one row per line of the source as `from_utf8_lossy(bytes).lines()` counts them
+                        let bytes = b.as_ref().unwrap();
+                        let lossy = String::from_utf8_lossy(bytes).to_string();
+                        let src_lines: Vec<&str> = lossy.lines().collect();
+                        if std::str::from_utf8(bytes).is_err() {
+                            rep.count("docs.html.source_invalid_utf8");
+                        }
+                        if bytes.contains(&13) {
+                            rep.count("docs.html.source_with_cr");
+                        }
+                        let want: Vec<Option<u64>> = (1..=src_lines.len() as u32).map(|l| c.lines.get(&l).cloned()).collect();
+                        if let Some(texts) = obs.texts.get(&pp) {
+                            // every instrumented line has its row with its exact count …
+                            for (l, n) in c.lines.iter().filter(|(l, _)| **l >= 1 && (**l as usize) <= src_lines.len()) {
+                                if obs.pages.get(&pp).and_then(|r| r.get(*l as usize - 1)) != Some(&Some(*n)) {
+                                    rep.fail("oracle", None, format!("c03.docs.html: page of {:?}: instrumented line {} (count {}) has no row with that count", rel, l, n), case_json("c03.docs.html", &set, detail.clone()));
+                                    break;
+                                }
+                            }
+                            // … and the rows carry the lossily decoded text of their line
+                            if texts.len() != src_lines.len() || texts.iter().zip(src_lines.iter()).any(|(a, b)| a != b) {
+                                rep.fail("oracle", None, format!("c03.docs.html: page of {:?}: {} rows for {} source lines, or a row text differs from the lossily decoded line", rel, texts.len(), src_lines.len()), case_json("c03.docs.html", &set, detail.clone()));
+                            }
+                            // tie of `lossyLines` (Writers/Docs.lean) to what the page shows
+                            let lreq = format!("c03.docs.lossylines {}", hex(bytes)).trim_end().to_string();
+                            let limpl = format!("{}:{}", texts.len(), texts.iter().map(|t| hex(t.as_bytes())).collect::<Vec<_>>().join(","));
+                            match sink.as_mut() {
+                                Some((reqs, impl_ans, cases)) => {
+                                    reqs.push(lreq);
+                                    impl_ans.push(limpl);
+                                    cases.push(json!({"op": "c03.docs.lossylines", "results": hex(bytes), "detail": rels}));
+                                }
+                                None => {
+                                    let m = run_model(&[lreq], &rep.workdir, "c03docs_replay_l");
+                                    if m[0].trim_end() != limpl {
+                                        rep.disagreements_checked += 1;
+                                        rep.fail("disagreement", None, "c03.docs.lossylines: the rows of the page differ from the model's lossyLines".into(), json!({"op": "c03.docs.lossylines", "results": hex(bytes), "impl": limpl, "model": m[0]}));
+                                    }
+                                }
+                            }
+                        }
                         if obs.pages.get(&pp) != Some(&want) {
                             // matcher of C03-html-index-named-source: the source file is named `index`, its page
                             // `<dir>/index.html` is the file the directory (or global) index is written to afterwards
@@ -856,8 +946,12 @@ pub fn replay(rep: &mut Report, case: &Value) {
             }
         }
         "c03.docs.html" => {
-            let nsrc: Vec<Option<usize>> = case["detail"]["nsrc"].as_array().map(|a| a.iter().map(|x| x.as_u64().map(|n| n as usize)).collect()).unwrap_or_default();
-            html_run(rep, &rs, &nsrc, None);
+            let srcs: Vec<Option<Vec<u8>>> = match case["detail"]["srcs"].as_array() {
+                Some(a) => a.iter().map(|x| x.as_str().map(unhex)).collect(),
+                // older case files give the number of (plain) source lines
+                None => case["detail"]["nsrc"].as_array().map(|a| a.iter().enumerate().map(|(k, x)| x.as_u64().map(|n| synth_source(n as usize, k))).collect()).unwrap_or_default(),
+            };
+            html_run(rep, &rs, &srcs, None);
         }
         "c03.docs.files" => {
             let p = out.join("f.txt");
